@@ -131,7 +131,7 @@ CountersMatch(c) ==
   /\ Keys(c.recs) = Range(c.iter)
   /\ (c.iter # <<>> => c.low = Head(c.iter))
   /\ (c.iter = <<>> => c.num = 0)
-  /\ \A i \in DOMAIN c.iter : \A j \in DOMAIN c.iter : i < j => c.iter[i] < c.iter[j]
+  /\ \A i \in 1..(Len(c.iter) - 1) : c.iter[i] < c.iter[i + 1]      \* strictly ascending (adjacent pairs: linear in the length)
   /\ (c.iter # <<>> => c.last >= Last(c.iter))
 WithinLimit(c) == c.num <= c.limit
 \* e = everything ever accepted for c (acceptance order = ascending key order)
